@@ -7,7 +7,7 @@ CHECKS = {
          "Exploration with a reference model (model::unify: first-order unification over rational trees with merge-before-descent and a final acyclicity check): acceptance <=> finite solution, every node's arrow equals the principal arrow with variables := unit, all construction orders agree in verdict and arrows, every error displays within 8 MiB and 2^23 iterator steps.",
          "Trusted: model::unify and the typing rules written in its header; jets as typed leaves take their types from the crate's tables. Construction stops at the first constructor error (the context is partially updated afterwards). Known finding F6 (unbounded error display) is keyed on DAGs containing a sub-DAG whose isolated principal type has >= 2^16 tree nodes.",
          "DESIGN.md §6 C04"),
- "C14": ("exhaustive enumeration over all 368+471+428 jets and all 502 extern declarations; round-trip, prefix-code, name-parse and differential (C decoder, C type inference, C analyseBounds on one-jet programs) oracles; textual comparison of Rust extern blocks with C prototypes",
+ "C14": ("exhaustive enumeration over all 368+471+428 jets and all 502 extern declarations; round-trip, prefix-code, name-parse and differential (C decoder, C type inference, C analyseBounds on one-jet programs) oracles; textual comparison of Rust extern blocks with C prototypes and of the repr(C) structs passed by pointer with the C structs, field by field",
          "Exhaustive over the finite sets the property quantifies over: code round trip and prefix-freeness per family, name parsing, type-name consistency, Core vs Elements namesake (types, code behind the family bit), Elements jets against the C tables (cmr, source/target type roots and widths, cost), and arity/parameter-type compatibility of every foreign function declaration with the C prototype (incl. WRAP_ expansions).",
          "Trusted: the small declaration parser and type-compatibility table in model/c14_decls.rs (conservative: unparsed or unmapped items are counted, never reported); libsimplicity as reference. Return types are compared but only counted (the property speaks of arity and parameter types). Bitcoin jets: codes, names, type names only, as the property states.",
          "DESIGN.md §6 C14"),
@@ -15,11 +15,11 @@ CHECKS = {
          "Exploration with a reference model: cmr() == commit().cmr() == satisfied/pruned cmr; satisfy is Ok exactly when the and/or/threshold model is true under leaf truths observed by running each one-leaf program in the environment; the satisfied program and its pruned form run; sorted() is idempotent, only reorders, and is invariant under permutations of commutative children at every depth.",
          "Trusted: the boolean model, libsecp256k1 for signatures, the Elements environment builder. Leaf truths come from executing the library's own one-leaf programs (so lock-time answers are true of the environment by construction).",
          "DESIGN.md §6 C16"),
- "C02": ("property-based testing: raw byte strings, byte-level mutations of valid encodings and single-rule canonicity violations assembled with an independent bit-level writer; round-trip (re-encode = input) oracle with fuel and allocation meters",
+ "C02": ("property-based testing: raw byte strings, byte-level mutations of valid encodings and single-rule canonicity violations (incl. hand-assembled nodes of one identity hash with different inner types) assembled with an independent bit-level writer; round-trip (re-encode = input) oracle with fuel and allocation meters",
          "Exploration: every input is decoded by RedeemNode::decode, CommitNode::decode and ConstructNode::decode under a DAG-step fuel limit (2^28), an allocation bound (96 MiB + 4096*len) and with overflow checks on; anything accepted must re-encode to exactly the input; a directed valid program whose witness has a zero-width type with 2^k tree nodes (k = 20..64) must be accepted within the same bounds; a jet node carrying an unassigned code of the family's prefix tree (computed from the encoder's tables, extended by 0..2 bits) must be rejected; each directed negative (unused node, non-canonical order, unshared duplicate, repeated hidden node, trailing byte, non-zero padding, short witness) must be rejected while its canonical twin is accepted.",
          "Trusted: model::wire (reader/writer of the bit format, cross-checked against the encoder on every valid program), the fuel hook, the counting allocator. Jet bit codes come from the crate's encode tables. The libFuzzer campaign of the thorough tier extends the raw-bytes part.",
          "DESIGN.md §6 C02"),
- "C03": ("property-based differential testing against the vendored C implementation: valid, pruned, mutated and raw (program, witness) byte pairs",
+ "C03": ("property-based differential testing against the vendored C implementation: valid, pruned, mutated, hand-assembled non-canonical and raw (program, witness) byte pairs",
          "Exploration with a differential partner: acceptance by RedeemNode::decode::<Elements> must coincide with acceptance by the C pipeline (decode, type inference, witness, IHR uniqueness, 1->1) except C FailCode and C resource refusals; cmr, amr, ihr and the cost bound must be identical whenever both accept. Part of the valid/mutated population has one witness of a completely pinned type (every width 1..1400 for the SHA-256 padding of the witness hash, padded sums, equal-width arms).",
          "Trusted: libsimplicity as the reference, the FFI struct layouts declared by simplicity-sys (asserted against C by its own tests). Inputs whose declared node count cannot fit the input are not given to C (it allocates from the length prefix).",
          "DESIGN.md §6 C03"),
